@@ -505,6 +505,40 @@ def gen_handler(ctx, n):
     return ops[:n]
 
 
+def gen_seqs(rng, n):
+    """ONE certificate presented from a sequence of addresses (inside / outside interleaved, inside first more often than
+    not): the answer for an address must not depend on what was asked before (caches, remembered decisions)"""
+    out = [("2", [(0x0A000000, 8)], "010", [0x0A010203, 0x0B010203, 0x0A090909, 0xC0A80101]),
+           ("1", [(0x0A000000, 8)], "010", [0x0A010203, 0x0B010203])]
+    while len(out) < n:
+        nets = [rand_block(rng, rng.randrange(1, 33)) for _ in range(rng.choice([1, 1, 2]))]
+        a, nl = rng.choice(nets)
+        inside = lambda: a | (rng.getrandbits(32) & ~netmask(nl) & MASK32)
+        outside = lambda: rng.choice([(a ^ (1 << (32 - nl))) | (rng.getrandbits(32) & ~netmask(nl) & MASK32), rng.getrandbits(32),
+                                      boundary_addrs(a, nl)[2], boundary_addrs(a, nl)[3]])
+        seq = [inside(), outside()] if rng.random() < 0.7 else [outside(), inside()]
+        for _ in range(rng.choice([1, 2, 4])):
+            seq.append(inside() if rng.random() < 0.4 else outside())
+        out.append((rng.choice(["1", "2", "2"]), nets, rng.choice(["010"] * 5 + ["110", "000"]), seq))
+    return out[:n]
+
+
+def seq_line(rng, sq):
+    chain, nets, env, addrs = sq
+    forms = [rng.choice(peer_forms(rng, x)[:2]) for x in addrs]
+    return "seq %s %s %s %s" % (chain, ",".join(blk(*x) for x in nets), env, ";".join(c.hexs(a) for a, _ in forms)), forms
+
+
+def get_probes(rng, nets):
+    """addresses from which a freshly minted certificate is used: inside and just outside its IPv4 blocks, anywhere"""
+    ps = [0x0B010203, rng.getrandbits(32)]
+    for a, n in (nets or [])[:2]:
+        ps.append(a | (rng.getrandbits(32) & ~netmask(n) & MASK32))
+        if n >= 1:
+            ps.append((a ^ (1 << (32 - n))) | (rng.getrandbits(32) & ~netmask(n) & MASK32))
+    return [rng.choice(peer_forms(rng, x)[:2]) for x in ps]
+
+
 def canon_cidr_strings(rng, nets):
     """CIDR strings as an operator would type them: host bits may be set (ParseCIDR clears them)"""
     out = []
@@ -516,6 +550,16 @@ def canon_cidr_strings(rng, nets):
 
 
 # --------------------------------------------------------------------------- helpers
+
+def new_config_options(facts):
+    """configuration keys the loader of the tree under test accepts that the pinned list (checks/C10.config_options.json,
+    taken from the validated tree) does not know: a new opt-in option is one more way to reach an effect the property
+    constrains, so the request streams are run again on a loader-built state with every such option switched on"""
+    import os
+    pinned = json.load(open(os.path.join(os.path.dirname(os.path.abspath(__file__)), "C10.config_options.json")))
+    known = set(o["path"] for o in pinned)
+    return [o for o in facts.get("config_options", []) if o["path"] not in known]
+
 
 def drv(ctx, mode, ops):
     """kmdriver on a possibly empty op list"""
@@ -534,11 +578,15 @@ def run(ctx):
     quick = ctx.quick()
     lib = gen_lib(ctx, 900 if quick else 12000, 500 if quick else 8000, 300 if quick else 6000)
     hnd = gen_handler(ctx, 700 if quick else 9000)
+    replaying = bool(ctx.replay)
     if ctx.replay:
         rp = json.load(open(ctx.replay))
         want_l = [v["replay"]["lib_op"] for v in rp.get("violations", []) if "lib_op" in v.get("replay", {})]
         want_h = [v["replay"]["handler_op"] for v in rp.get("violations", []) if "handler_op" in v.get("replay", {})]
-        if want_l or want_h:
+        if any("handler_seq_op" in v.get("replay", {}) for v in rp.get("violations", [])):
+            # sequences / creations / configuration-file states are regenerated from the seed: run the whole stream again
+            replaying = False
+        elif want_l or want_h:
             lib = [lib_op_from_line(l) for l in dict.fromkeys(want_l)]
             hnd = [handler_op_from_line(l) for l in dict.fromkeys(want_h)]
     hist = {"verify": {}, "peer": {}, "prefix_lengths_minted": set(), "refresh_status": {}, "certgen_status": {},
@@ -633,7 +681,7 @@ def run(ctx):
     hops = [handler_line(o) for o in hnd]
     # a few certificates through the real creation handler as well (strings as an operator types them)
     gets = []
-    for i in range(0 if ctx.replay else (40 if quick else 400)):
+    for i in range(0 if replaying else (40 if quick else 400)):
         r = ctx.rng.random()
         if r < 0.75:
             nets = [rand_block(ctx.rng, ctx.rng.randrange(33)) for _ in range(ctx.rng.choice([1, 2, 3]))]
@@ -644,16 +692,48 @@ def run(ctx):
             gets.append((["10.0.0.0/8", "::ffff:10.0.0.0/104"], None, 500))
         else:
             gets.append(([ctx.rng.choice(["10.1.2.3", "10.0.0.0/33", "banana", "10.0.0/8", ""])], None, 400))
-    hops += ["get %s" % c.hexs(",".join(s)) for s, _, _ in gets]
+    gprobes = [get_probes(ctx.rng, nets) for _, nets, _ in gets]
+    hops += ["get %s %s" % (c.hexs(",".join(s)), ";".join(c.hexs(a) for a, _ in pr)) for (s, _, _), pr in zip(gets, gprobes)]
+    # one certificate, many addresses in a row
+    seqs = [] if replaying else gen_seqs(ctx.rng, 40 if quick else 500)
+    seq_lines = [seq_line(ctx.rng, sq) for sq in seqs]
+    n_seq = len(hops)
+    hops += [l for l, _ in seq_lines]
+    # the same streams on a state the real loader built from a configuration file (baseline automation settings); when the
+    # tree accepts configuration keys the pinned list does not know, every such option is switched on first
+    new_opts = new_config_options(facts)
+    n_cfg = len(hops)
+    cfg_hnd, cfg_gets, cfg_gprobes, cfg_seqs, cfg_seq_lines = [], [], [], [], []
+    if not replaying:
+        cfg_hnd = [o for o in hnd if o[0] == "nets" and o[5] == "010"][5:(65 if quick else 600)]
+        cfg_gets = gets[:(12 if quick else 100)]
+        cfg_gprobes = gprobes[:len(cfg_gets)]
+        cfg_seqs = [sq for sq in seqs if sq[2] == "010"][:(25 if quick else 300)]
+        cfg_seq_lines = [seq_line(ctx.rng, sq) for sq in cfg_seqs]
+        hops += ["usecfg " + c.hexs(json.dumps(new_opts))] + [handler_line(o) for o in cfg_hnd]
+        hops += ["get %s %s" % (c.hexs(",".join(s)), ";".join(c.hexs(a) for a, _ in pr)) for (s, _, _), pr in zip(cfg_gets, cfg_gprobes)]
+        hops += [l for l, _ in cfg_seq_lines]
     himpl, log, rc = c.run_harness(ctx, "cmd/keymasterd", "C11", hops) if hops else ([], "", 0)
     if rc != 0 or len(himpl) != len(hops):
         ctx.broken.append("harness TestVerifC11 did not complete (exit %d, %d/%d lines)" % (rc, len(himpl), len(hops)))
         return c.finish(ctx)
+    cfg_report = himpl[n_cfg] if len(himpl) > n_cfg else "-"
+    if not replaying and not cfg_report.startswith("cfg "):
+        ctx.broken.append("configuration-file state could not be built: %s" % cfg_report)
+    # slices of the output
+    c0 = n_cfg + 1
+    out_ref = himpl[:len(hnd)] + himpl[c0:c0 + len(cfg_hnd)]
+    out_get = himpl[len(hnd):n_seq] + himpl[c0 + len(cfg_hnd):c0 + len(cfg_hnd) + len(cfg_gets)]
+    out_seq = himpl[n_seq:n_cfg] + himpl[c0 + len(cfg_hnd) + len(cfg_gets):]
+    ref_lines = hops[:len(hnd)] + ["cfg " + l for l in hops[c0:c0 + len(cfg_hnd)]]
+    all_hnd = hnd + cfg_hnd
+    all_gets = [(g, pr, "") for g, pr in zip(gets, gprobes)] + [(g, pr, "cfg ") for g, pr in zip(cfg_gets, cfg_gprobes)]
+    all_seqs = [(sq, sl, "") for sq, sl in zip(seqs, seq_lines)] + [(sq, sl, "cfg ") for sq, sl in zip(cfg_seqs, cfg_seq_lines)]
     mops, mimpl, jops, jmeta, extops, extimpl = [], [], [], [], [], []
     umops, umimpl, ujops, ujmeta = [], [], [], []
     amops, amimpl, ajops, ajmeta = [], [], [], []
     cn = c.hexs("role1")
-    for o, line, out in zip(hnd, hops, himpl):
+    for o, line, out in zip(all_hnd, ref_lines, out_ref):
         kind, chain, arg, addr, cls, env, form, probes = o
         if out.startswith("bad-op") or out.startswith("cert-error") or out.startswith("minterr"):
             ctx.broken.append("handler harness could not run op %r: %s" % (line, out))
@@ -771,9 +851,29 @@ def run(ctx):
                 ctx.broken.append("refreshed certificate's extension bytes differ from the model's: op=%r impl=%s model=%s" % (op, got, want))
                 break
     # creation handler
-    gimpl = himpl[len(hnd):]
-    gm = drv(ctx, "model", ["mint %s v6" % (",".join(blk(*x) for x in nets) if nets else "other") for _, nets, _ in gets])
-    for (strs, nets, status), out, m in zip(gets, gimpl, gm):
+    gm = drv(ctx, "model", ["mint %s v6" % (",".join(blk(*x) for x in nets) if nets else "other") for (_, nets, _), _, _ in all_gets])
+    sjops, sjmeta, smops, smimpl = [], [], [], []
+
+    def judge_uses(origin, ns, env, forms, entries):
+        """entries `cls~user~r/c` of one certificate presented from several addresses: every answer is judged by the
+        stateless predicate (admitted iff inside the certificate's IPv4 netblocks) and diffed against the model"""
+        for (paddr, pcls), u in zip(forms, entries.split(",")):
+            ucls, user, codes = u.split("~")
+            if pcls is not None and pcls != ucls:
+                ctx.broken.append("generator/peer class: %r expected %s, stdlib says %s" % (paddr, pcls, ucls))
+                continue
+            r2, c2 = codes.split("/")
+            smops.append("refm %s %s %s %s" % (cn, ns, ucls, env))
+            smimpl.append("%s/%s" % (r2, c2))
+            for which, code in (("checkAuth", "PANIC" if user == "PANIC" else ("200" if user != "none" else "403")), ("refresh", r2), ("certgen", c2)):
+                sjops.append("juse %s %s %s %s" % (ns, ucls, env, code))
+                sjmeta.append((origin, which, paddr))
+            bump(hist.setdefault("sequence_status", {}), r2)
+    for ((strs, nets, status), pr, where), out, m in zip(all_gets, out_get, gm):
+        if " use=" in out:
+            out, use = out.split(" use=")
+            # the netblocks the property speaks of: the IPv4 blocks that were asked for (none, if none was)
+            judge_uses(where + "get " + ",".join(strs), ",".join(blk(*x) for x in nets) if nets else "-", "010", pr, use)
         g = out.split("=", 1)[1].split("|") if out.startswith("get=") else ["?"]
         if g[0] == "PANIC" or out.startswith("status=PANIC"):
             c.add_violation(ctx, "panic:get:" + ",".join(strs), "roleRequetingCertGenHandler panicked", {"handler_op": "get " + ",".join(strs)})
@@ -788,12 +888,29 @@ def run(ctx):
             if g[4] != want or g[2] != wantn or g[1] != cn or g[3] != "1":
                 ctx.broken.append("getRoleRequestingCert %r: got cn=%s nets=%s ext=%s, model nets=%s ext=%s" % (strs, g[1], g[2], g[4], wantn, want))
 
+    for (sq, (sline, forms), where), out in zip(all_seqs, out_seq):
+        if not out.startswith("seq="):
+            ctx.broken.append("handler harness could not run op %r: %s" % (sline, out))
+            continue
+        judge_uses(where + sline, ",".join(blk(*x) for x in sq[1]), sq[2], forms, out[4:])
+    sm = drv(ctx, "model", smops)
+    c.diff_streams(ctx, "one certificate from a sequence of addresses / freshly minted certificates in use vs KM.IPBlock.refresh", smops, smimpl,
+                   [status_pair(m) for m in sm])
+    seqv, seen_seq = [], set()
+    for (origin, which, paddr), j, v in zip(sjmeta, sjops, drv(ctx, "judge", sjops)):
+        if v != "ok" and (origin, v) not in seen_seq:
+            seen_seq.add((origin, v))
+            seqv.append({"key": "seq:" + origin, "what": "%s from %s: %s (judge op %s)" % (which, paddr, v, j),
+                         "replay": {"handler_seq_op": origin, "judge": v, "judge_op": j, "which": which, "probe": paddr}})
+    ctx.violations[:0] = seqv
+    hist["config_file_state"] = {"report": cfg_report, "new_options": [o["path"] for o in new_opts], "refreshes": len(cfg_hnd),
+                                 "creations": len(cfg_gets), "sequences": len(cfg_seqs)}
     hist["prefix_lengths_minted"] = len(hist["prefix_lengths_minted"])
-    if hist["prefix_lengths_minted"] != 33 and not ctx.replay:
+    if hist["prefix_lengths_minted"] != 33 and not replaying:
         ctx.broken.append("generator covered %d of 33 prefix lengths" % hist["prefix_lengths_minted"])
     ctx.coverage.update({
-        "evaluations": len(lops) + 2 * len(hnd) + len(gets) + 2 * len(umops),
-        "library_ops": len(lops), "handler_requests": 2 * len(hnd) + len(gets) + 2 * len(umops), "judged": len(jops) + len(ujops) + len(ajops),
+        "evaluations": len(lops) + 2 * len(all_hnd) + len(all_gets) + 2 * len(umops) + 3 * len(smops),
+        "library_ops": len(lops), "handler_requests": 2 * len(hnd) + len(gets) + 2 * len(umops), "judged": len(jops) + len(ujops) + len(ajops) + len(sjops),
         "refreshes_with_hostile_form_parameters": hist.get("with_form_params", 0), "uses_of_refreshed_certificates": 2 * len(umops),
         "distinct_nontrivial": len(nontrivial),
         "rule": "non-trivial = distinct ops on which the implementation admitted a peer / issued a certificate, extracted netblocks "
